@@ -54,7 +54,7 @@ def config(tier):
     e = {'NUMBA_THREADING_LAYER': 'workqueue'}
     if tier == 'quick':
         return dict(shards=4, examples=1000, numba_threads=16, boundscheck=[True, False, False, False], shrink_calls=150, soft_s=105, env=e)
-    return dict(shards=4, examples=20000, numba_threads=16, boundscheck=[True, False, False, False], shrink_calls=400, soft_s=800, env=e)
+    return dict(shards=8, examples=10000, numba_threads=16, boundscheck=[True, False, False, False], shrink_calls=400, soft_s=800, env=e)
 
 
 def extra_evidence():
